@@ -46,6 +46,15 @@ def summary(run):
 
 def replay(obligation, extra):
     tried = 0
+    # the reference behaviour of a fresh object, taken FIRST, while nothing has run in this process yet: state shared
+    # between instances (class attributes, module globals) would otherwise pollute the reference just like the subject
+    baseline = {}
+    for compress in (False, True):
+        clock = harness.Clock(1000.0).install()
+        try:
+            baseline[compress] = summary(drive_on(harness.WebSocket('ws://example.com/', compress=compress), reads=drive_second(None, clock), clock=clock))
+        finally:
+            clock.uninstall()
     for name, kw in first_connections():
         kw = dict(kw)
         compress = kw.pop('ws_compress', False)
@@ -65,8 +74,13 @@ def replay(obligation, extra):
         tried += 1
         if second.key == first.key:
             return dict(found=True, input='previous connection ended: %s' % name, expected='a new handshake key', observed='the key was reused')
-        if summary(second) != summary(fresh):
-            a, b = summary(second), summary(fresh)
+        for ref_name, ref_summary in (('a fresh WebSocket', summary(fresh)), ('a fresh WebSocket in a fresh process', baseline[compress])):
+            if summary(second) != ref_summary:
+                break
+        else:
+            continue
+        if True:
+            a, b = summary(second), ref_summary
             return dict(found=True, input='previous connection on the same WebSocket object ended: %s; then the object connects again' % name,
                         expected='exactly the events of a fresh WebSocket: %r' % [dict(e).get('name') for e in b[0]],
                         observed='%r' % [dict(e).get('name') + (':' + dict(e).get('reason', '') if dict(e).get('name') == 'disconnected' else '') for e in a[0]])
